@@ -24,6 +24,11 @@ func stakeDifferential(run *ev.Run, prefix string, e func(l, s *statecache.State
 		collect(w, "c0", "m0"), collect(w, "c3", "m0"),
 		payFees(w, 0, "m0", 0, "c2", 7),
 		settings(w, "max_delegates", "3"),
+		// cross-contract read of the shared provider key space: the storage contract asked for a
+		// "blobber" whose id is a registered miner (the MinerNode may sit in the cache under that key)
+		sLock(w, "c0", "m0", 100000000),
+		sCall(w, "owner", "kill_blobber", "m0"),
+		call(w, "m0", "storagesc", "blobber_health_check", nil, 0, 0, "-by-miner"),
 	}
 	ex := &chainsim.Explorer{Run: run, W: w, Actions: acts, Roots: [][]chainsim.Action{rootStaked(w)}, Depth: run.Pick(2, 3),
 		Budget: time.Duration(run.Pick(50, 600)) * time.Second}
